@@ -409,7 +409,7 @@ func init() {
 			if bad := ref.Check(prog.B); len(bad) > 0 {
 				return fw.Result{Verdict: fw.Inconclusive, Key: "generator-invalid", Msg: strings.Join(bad, "; ")}
 			}
-			files := bundleSources(prog.B, ref.Layout{Multiline: i%2 == 0, CRLF: i%5 == 2})
+			files := bundleSources(prog.B, ref.Layout{Multiline: i%2 == 0, CRLF: i%5 == 2, Attrs: i%3 == 1})
 			tofu, err := compile(files, prog.B.Globals)
 			kinds, _ := shapeOf(prog.B)
 			id := ""
@@ -475,7 +475,7 @@ func init() {
 						ctx.Obs("injections_still_valid", 1)
 						continue // e.g. an outer binding of the same name exists: not a violation after all
 					}
-					f2 := bundleSources(p2.B, ref.Layout{Multiline: i%2 == 0, CRLF: i%5 == 2})
+					f2 := bundleSources(p2.B, ref.Layout{Multiline: i%2 == 0, CRLF: i%5 == 2, Attrs: i%3 == 1})
 					_, cerr := compile(f2, p2.B.Globals)
 					src := ""
 					for _, f := range f2 {
